@@ -7,6 +7,7 @@ import (
 	"sort"
 	"strconv"
 	"strings"
+	"time"
 
 	"lunar/engine/actions"
 	lunarMessages "lunar/engine/messages"
@@ -23,10 +24,13 @@ type PPath struct {
 
 type CachingConf struct {
 	Paths    []PPath `json:"request_payload_paths"`
-	TTLg     int64   `json:"ttl_grid"` // ttl_seconds in units of 1/512 s
+	TTLg     int64   `json:"ttl_grid"`         // ttl_seconds in units of 1/512 s
+	TNs      int64   `json:"ttl_ns,omitempty"` // ttl_seconds of a few ns, off the grid (only with ttl_grid = 0)
 	MaxRec   int     `json:"max_record_size_bytes"`
 	MaxBytes int64   `json:"max_cache_size_bytes"` // max_cache_size_megabytes * 2^20
 }
+
+func (cf *CachingConf) ttl() int64 { return cf.TTLg*G + cf.TNs }
 
 type POp struct {
 	Kind    string            `json:"op"` // adv|req|resp|fire
@@ -44,7 +48,8 @@ type POp struct {
 	Early     bool  `json:"early,omitempty"`
 	RVid      int   `json:"r_vid,omitempty"` // which response was replayed (-1: none of those given)
 	Unexpect  bool  `json:"unexpected,omitempty"`
-	Stored    bool  `json:"sleeper_started,omitempty"`
+	Stored    bool  `json:"stored,omitempty"`           // resp: the cache holds this response afterwards
+	Slp       int   `json:"sleepers_started,omitempty"` // resp: sleepers that registered with the clock
 	Bad       bool  `json:"bad,omitempty"`
 	Held      int   `json:"held_entries"`
 	HeldBytes int64 `json:"held_content_bytes"`
@@ -98,7 +103,7 @@ type cachingRun struct {
 func newCachingRun(cf CachingConf, t0 int64) *cachingRun {
 	w := newWorld(t0)
 	conf := sharedConfig.CachingConfig{
-		TTLSeconds:            float32(float64(cf.TTLg) / 512),
+		TTLSeconds:            float32(ttlSeconds(cf.TTLg, cf.TNs)),
 		MaxRecordSizeBytes:    cf.MaxRec,
 		MaxCacheSizeMegabytes: float32(float64(cf.MaxBytes) / 1048576),
 	}
@@ -106,8 +111,11 @@ func newCachingRun(cf CachingConf, t0 int64) *cachingRun {
 		conf.RequestPayloadPaths = append(conf.RequestPayloadPaths,
 			sharedConfig.PayloadPath{PayloadType: p.Type, Path: p.Path})
 	}
-	if float64(conf.TTLSeconds)*512 != float64(cf.TTLg) || float64(conf.MaxCacheSizeMegabytes)*1048576 != float64(cf.MaxBytes) {
+	if (cf.TNs == 0 && float64(conf.TTLSeconds)*512 != float64(cf.TTLg)) || float64(conf.MaxCacheSizeMegabytes)*1048576 != float64(cf.MaxBytes) {
 		panic("c12 harness: configuration value not exact in float32")
+	}
+	if cf.TNs != 0 && int64(time.Duration(float64(time.Second)*float64(conf.TTLSeconds))) != cf.TNs {
+		panic("c12 harness: off-grid ttl not robust in float32")
 	}
 	return &cachingRun{w: w, plugin: remedies.NewCachingPlugin(w.clk), conf: conf,
 		k: &CachingCase{Conf: cf, T0: t0}, sleeper: map[int]int{}}
@@ -159,8 +167,15 @@ func (r *cachingRun) do(o POp) {
 		if _, ok := act.(*actions.NoOpAction); !ok || err != nil {
 			o.Unexpect = true
 		}
-		if r.w.settle(-1) == 1 {
-			o.Stored = true
+		if cache := r.plugin.VerifC12Cache(); cache != nil {
+			_, vals, _, _ := cache.VerifC12Snapshot()
+			for _, v := range vals {
+				if v.ID == respID(o.Vid) {
+					o.Stored = true
+				}
+			}
+		}
+		if o.Slp = r.w.settle(o.Stored); o.Slp > 0 {
 			r.sleeper[idx] = r.w.reg - 1
 		}
 		r.resps = append(r.resps, o)
@@ -209,7 +224,7 @@ func cachingCoq(k *CachingCase) string {
 		c.MapList(k.Conf.Paths, func(p PPath) string {
 			return c.Tuple(c.B(p.Type == sharedConfig.RequestPathParamPayload), c.Bytes(p.Path))
 		}),
-		c.Z(k.Conf.TTLg*G), c.Z(int64(k.Conf.MaxRec)), c.Z(k.Conf.MaxBytes))
+		c.Z(k.Conf.ttl()), c.Z(int64(k.Conf.MaxRec)), c.Z(k.Conf.MaxBytes))
 	items := []string{}
 	for i, o := range k.Ops {
 		var op, out string
@@ -264,7 +279,7 @@ func cachingMonitor(k *CachingCase) []c.Hit {
 	add := func(sig, dem, obs string) {
 		hits = append(hits, c.Hit{Signature: sig, Demanded: dem, Observed: obs, Case: k})
 	}
-	ttl := k.Conf.TTLg * G
+	ttl := k.Conf.ttl()
 	sizeReported := false
 	for i, o := range k.Ops {
 		if o.Kind == "req" && o.Early {
@@ -305,7 +320,7 @@ func cachingRecord(o *c.Out, k *CachingCase) {
 		case "resp":
 			if op.Stored {
 				stored++
-				e := op.At + k.Conf.TTLg*G
+				e := op.At + k.Conf.ttl()
 				exp[e-1], exp[e], exp[e+1] = true, true, true
 			} else {
 				notStored++
@@ -328,6 +343,10 @@ func cachingRecord(o *c.Out, k *CachingCase) {
 	o.CountN("caching.stored", stored)
 	o.CountN("caching.not_stored", notStored)
 	o.CountN("caching.probes_at_expiry±1ns", boundary)
+	if k.Conf.ttl() <= 0 {
+		o.Count("caching.histories_with_ttl<=0")
+		o.CountN("caching.stored_with_ttl<=0", stored)
+	}
 	nontrivial := hit > 0 && miss > 0 && (boundary > 0 || notStored > 0)
 	idx := o.Case("caching", cachingCoq(k), k, nontrivial)
 	o.MonitorChecked(1)
@@ -365,8 +384,11 @@ func entryBytes(method, url string, vid, bodyLen int) int64 {
 }
 
 func genCachingHistory(o *c.Out, rng *c.Rng, t0 int64) {
-	cf := CachingConf{Paths: c.Pick(rng, pathPools), TTLg: c.Pick(rng, []int64{1, 2, 2, 512, 1536}),
+	cf := CachingConf{Paths: c.Pick(rng, pathPools), TTLg: c.Pick(rng, []int64{1, 2, 2, 512, 1536, 2, 512, 0, -1, -512}),
 		MaxRec: c.Pick(rng, []int{40, 40, 1000})}
+	if rng.Chance(1, 20) {
+		cf.TTLg, cf.TNs = 0, c.Pick(rng, []int64{-1, 1})
+	}
 	bodyLens := []int{8, 30, 39, 40, 41}
 	methods := []string{"GET", "POST"}
 	urls := []string{"a.com/x", "a.com/y", "a.com/x/"}
@@ -423,7 +445,7 @@ func genCachingHistory(o *c.Out, rng *c.Rng, t0 int64) {
 			r.do(POp{Kind: "resp", Method: q.m, URL: q.u, Params: q.p, Vid: vid,
 				Status: c.Pick(rng, []int{200, 200, 404}), BodyLen: c.Pick(rng, bodyLens)})
 			if r.k.Ops[len(r.k.Ops)-1].Stored {
-				stores = append(stores, r.now()+cf.TTLg*G)
+				stores = append(stores, r.now()+cf.ttl())
 			}
 		case x < 65:
 			q := pickReq()
@@ -450,4 +472,65 @@ func genCachingHistory(o *c.Out, rng *c.Rng, t0 int64) {
 	}
 	r.finish()
 	cachingRecord(o, r.k)
+}
+
+// genCachingNonPositiveTTL: ttl_seconds zero or negative (the configuration
+// model does not validate the field: 0 is also what an omitted ttl_seconds
+// yields). A response is stored, the same request is probed at +0, +1 ns,
+// +1 s, +1 h; then a second response for the same key must be able to take
+// the place of the dead entry; the sleeper of the first fires never / before
+// / after the second store. A request differing in the selected path
+// parameter runs alongside.
+func genCachingNonPositiveTTL(o *c.Out, t0 int64) {
+	type ttl struct{ g, ns int64 }
+	typ := entryBytes("GET", "a.com/x", 101, 30)
+	for _, tl := range []ttl{{0, 0}, {0, -1}, {0, 1}, {-1, 0}, {-512, 0}, {-512 * 3600, 0}, {-512 * 2000000, 0}} {
+		for fireAt := 0; fireAt < 3; fireAt++ {
+			for _, maxBytes := range []int64{1 << 20, 2 * typ} {
+				for _, off := range []int64{0, 1} { // clock on / off the grid
+					cf := CachingConf{Paths: pathPools[0], TTLg: tl.g, TNs: tl.ns, MaxRec: 40, MaxBytes: maxBytes}
+					r := newCachingRun(cf, t0+off)
+					p1 := map[string]string{"id": "1"}
+					p2 := map[string]string{"id": "2"}
+					probe := func() {
+						r.do(POp{Kind: "req", Method: "GET", URL: "a.com/x", Params: p1})
+						r.do(POp{Kind: "req", Method: "GET", URL: "a.com/x", Params: p2})
+					}
+					firePending := func(sid int) {
+						if _, ok := r.sleeper[sid]; ok {
+							r.do(POp{Kind: "fire", Sid: sid})
+						}
+					}
+					r.do(POp{Kind: "resp", Method: "GET", URL: "a.com/x", Params: p1, Vid: 101, Status: 200, BodyLen: 30})
+					first := len(r.k.Ops) - 1
+					probe() // +0
+					r.do(POp{Kind: "adv", D: 1})
+					probe() // +1 ns
+					r.do(POp{Kind: "adv", D: sec - 1})
+					probe() // +1 s
+					r.do(POp{Kind: "adv", D: 3599 * sec})
+					probe() // +1 h
+					if fireAt == 1 {
+						firePending(first)
+					}
+					r.do(POp{Kind: "resp", Method: "GET", URL: "a.com/x", Params: p1, Vid: 102, Status: 200, BodyLen: 30})
+					second := len(r.k.Ops) - 1
+					probe() // +0 of the second store
+					if fireAt == 2 {
+						firePending(first)
+						probe()
+					}
+					r.do(POp{Kind: "resp", Method: "GET", URL: "a.com/x", Params: p2, Vid: 103, Status: 200, BodyLen: 30})
+					probe()
+					r.do(POp{Kind: "adv", D: 1})
+					probe()
+					firePending(second)
+					r.do(POp{Kind: "resp", Method: "GET", URL: "a.com/x", Params: p1, Vid: 104, Status: 404, BodyLen: 8})
+					probe()
+					r.finish()
+					cachingRecord(o, r.k)
+				}
+			}
+		}
+	}
 }
